@@ -37,13 +37,19 @@
    file sets; needed only by the four requests that ask for min_version and not for the model).
    Iterators: C03_iter_dfs (element- and model-scoped, every max_depth), C03_iter_sub_elements, C03_iter_file.
    DetFiles: C03_detfiles_inv / _histories show DF (hence DetFiles) is an invariant under TreeInv, so C03_stale_inv and
-   C03_stale_reachable need no extra hypothesis. *)
+   C03_stale_reachable need no extra hypothesis.
+   Stale handles over op2 (sort, duplicate, set_version, compat check, serialize; OpLoad pending = pending_op2):
+     C03_detfiles_duplicate: AutosarModel::duplicate keeps DF whatever it returns (and TreeInv when it returns Ok).
+     C03_td_inv2_partial / C03_td_histories2_partial: TreeInv /\ DF along op2 histories without OpLoad outside Known2
+       (= Inv.Known on Op1, Known_dup_failed on OpDuplicate).
+     C03_stale_histories2_partial: in every world reached that way from the empty world, every place-dependent request
+       through a handle of a detached (removed) element fails and leaves the world unchanged. *)
 From AV Require Import Base.Bytes Base.Outcome Hash.HashModel Tree.Heap Tree.Ops Tree.Script Tree.Inv Tree.Iter
   Tree.InvProofsTree Tree.InvProofsNav Tree.InvProofs Tree.StaleProofs Tree.IterProofs Tree.IterProofsFile
   Tree.InvProofsDetFiles Tree.InvProofsDetFilesMain Tree.InvProofsOp2 Tree.InvExamples
   Tree.InvProofsChars Tree.InvProofsChars5 Tree.InvProofsOrigins3 Tree.InvProofsReal Tree.InvProofsRealTables Spec.SpecReal.
 From AV Require Import Tree.Script2 Tree.InvLoad Tree.InvProofsOp2Full Tree.InvProofsLoadExamples Tree.InvProofsOp2Lift
-  Tree.InvProofsOp2Real Tree.InvEBase Tree.InvProofsLoadLive Tree.InvProofsOp2Live Tree.InvProofsOp2Rej Tree.InvE_Main Tree.InvL_Base Tree.InvL_Main Tree.InvL_Op2.
+  Tree.InvProofsOp2Real Tree.InvEBase Tree.InvProofsLoadLive Tree.InvProofsOp2Live Tree.InvProofsOp2Rej Tree.InvE_Main Tree.InvL_Base Tree.InvL_Main Tree.InvL_Op2 Tree.InvProofsStale2.
 From AV Require Xml.TablesOk.
 From AV Require Tree.Load Tree.MergeSpec Tree.LoadProofsRefuted.
 Open Scope string_scope.
@@ -545,6 +551,52 @@ Theorem C03_stale_reachable :
     Detached w h -> principal o = Some h -> place_dependent o = true ->
     Inv.run T tab_el tab_en check_fn LATEST root_attrs o w = Val (r, w') -> w' = w /\ failed r.
 Proof. exact stale_fails_reachable. Qed.
+
+(* ---------- the stale-handle half over the larger alphabet op2 (OpLoad pending) ---------- *)
+Theorem C03_detfiles_duplicate :
+  forall (T : tables) (tab_el tab_en : nametab) (check_fn : N -> list N -> res bool) (LATEST : N)
+         (root_attrs : list (N * cdata)) (m : N) (w : world) (r : out N) (w' : world),
+    TreeInv w -> DF w ->
+    Copy.m_duplicate T tab_el tab_en check_fn LATEST root_attrs m w = Val (r, w') ->
+    DF w' /\ (forall c : N, r = OK c -> TreeInv w').
+Proof. exact DF_duplicate. Qed.
+
+Theorem C03_td_inv2_partial :
+  forall (T : tables) (tab_el tab_at tab_en : nametab) (check_fn : N -> list N -> res bool)
+         (float_parse : list N -> option N) (float_fmt : N -> list N)
+         (LATEST name_index name_definition_ref attr_schema_location : N) (root_attrs : list (N * cdata))
+         (o : op2) (w : world) (r : out value2) (w' : world),
+    TreeInv w -> DF w -> pending_op2 o = false ->
+    Known2 T tab_el tab_at tab_en check_fn float_parse float_fmt LATEST name_index name_definition_ref
+      attr_schema_location root_attrs w o = false ->
+    run_op2 T tab_el tab_at tab_en check_fn float_parse float_fmt LATEST name_index name_definition_ref
+      attr_schema_location root_attrs o w = Val (r, w') -> TreeInv w' /\ DF w'.
+Proof. exact TD_step2_partial. Qed.
+
+Theorem C03_td_histories2_partial :
+  forall (T : tables) (tab_el tab_at tab_en : nametab) (check_fn : N -> list N -> res bool)
+         (float_parse : list N -> option N) (float_fmt : N -> list N)
+         (LATEST name_index name_definition_ref attr_schema_location : N) (root_attrs : list (N * cdata))
+         (l : list op2) (w w' : world),
+    TreeInv w -> DF w ->
+    clean_stale_ops2 T tab_el tab_at tab_en check_fn float_parse float_fmt LATEST name_index
+      name_definition_ref attr_schema_location root_attrs l w = true ->
+    run_ops2 T tab_el tab_at tab_en check_fn float_parse float_fmt LATEST name_index name_definition_ref
+      attr_schema_location root_attrs l w = Val w' -> TreeInv w' /\ DF w'.
+Proof. exact TD_histories2_partial. Qed.
+
+Theorem C03_stale_histories2_partial :
+  forall (T : tables) (tab_el tab_at tab_en : nametab) (check_fn : N -> list N -> res bool)
+         (float_parse : list N -> option N) (float_fmt : N -> list N)
+         (LATEST name_index name_definition_ref attr_schema_location : N) (root_attrs : list (N * cdata))
+         (l : list op2) (w : world) (o : op) (h : id) (r : out value) (w' : world),
+    run_ops2 T tab_el tab_at tab_en check_fn float_parse float_fmt LATEST name_index name_definition_ref
+      attr_schema_location root_attrs l empty_world = Val w ->
+    clean_stale_ops2 T tab_el tab_at tab_en check_fn float_parse float_fmt LATEST name_index
+      name_definition_ref attr_schema_location root_attrs l empty_world = true ->
+    Detached w h -> principal o = Some h -> place_dependent o = true ->
+    Inv.run T tab_el tab_en check_fn LATEST root_attrs o w = Val (r, w') -> w' = w /\ failed r.
+Proof. exact stale_fails_histories2_partial. Qed.
 
 (* ---------- the finding: an error after the point of no return leaves an orphan ---------- *)
 Theorem C03_failed_reparent_refuted :
